@@ -110,6 +110,11 @@ func (r *InboundRequestSingleFlight) GetOrCreate(ctx *Context, response *GraphQL
 		select {
 		case <-request.Done:
 			if request.Err != nil {
+				if leaderCancelled(ctx.ctx, request.Err) {
+					// The leader's own client went away; that is not a failure of this request.
+					// The entry is gone, so try again as a leader (or as a follower of a new one).
+					return r.GetOrCreate(ctx, response)
+				}
 				return nil, request.Err
 			}
 			return request, nil
